@@ -93,7 +93,7 @@ def run(rep):
              'extendors in reverse, visits everything, extends the result with '
              'the leaf of the exact name; _uncached_subscriptions walks '
              'registry.ro in reverse (base registries first) over _subscribers',
-             floor=12)
+             floor=10)
     rep.rule('R07.2', 'leaf discipline: _addValueToLeaf appends at the end '
              '(None -> 1-tuple); _removeValueFromLeaf keeps, in order, exactly '
              'the items != to_remove (equality, all occurrences)', floor=2)
